@@ -175,3 +175,82 @@ def prove_c11(tier, seed):
         except Exception as ex:      # noqa: BLE001
             res.append(Res(qn, "post", label, P, "undecided", backend="normal-form", reason=repr(ex)))
     return res
+
+
+def prove_c11_surrogate(tier, seed):
+    """SurrogateOptimizer.solve (hundreds of lines of moptipy API calls, outside the generator's subset) contains the one
+    place where the objective is switched to a learned model and back.  The property needs that switch to be bracketed:
+    in the statement list that contains `raw.set_model(...)`
+      (1) `raw.set_raw()` follows later in the same list, and nothing in between can leave the list early
+          (no return / break / continue / raise at any depth between the two statements);
+      (2) `setattr(raw, "initialize", <something else than the saved original>)` precedes the switch: the Execution of
+          a model run calls initialize() on its objective, which would clear the recorded training data and switch
+          back to raw mode in the middle of the model phase.
+    These are control-flow facts of the real source, read from /repo on every run; exceptions are not modelled."""
+    import ast as _ast
+    from pyvc.extract import get_function
+    from pyvc.floatsym import Res
+    P = frozenset(["C11"])
+    qn = "moptipyapps.dynamic_control.surrogate_optimizer:SurrogateOptimizer.solve"
+    res = []
+
+    def is_call(s, recv, meth):
+        v = s.value if isinstance(s, _ast.Expr) else None
+        return isinstance(v, _ast.Call) and isinstance(v.func, _ast.Attribute) and v.func.attr == meth \
+            and isinstance(v.func.value, _ast.Name) and v.func.value.id == recv
+
+    def is_setattr_init(s):
+        v = s.value if isinstance(s, _ast.Expr) else None
+        if isinstance(v, _ast.Call) and isinstance(v.func, _ast.Name) and v.func.id == "setattr" and len(v.args) == 3 \
+                and isinstance(v.args[0], _ast.Name) and v.args[0].id == "raw" \
+                and isinstance(v.args[1], _ast.Constant) and v.args[1].value == "initialize":
+            return v.args[2]
+        return None
+
+    try:
+        fs = get_function(qn)
+        lists = []
+        for n in _ast.walk(fs.node):
+            for fld in ("body", "orelse", "finalbody"):
+                b = getattr(n, fld, None)
+                if isinstance(b, list) and b and isinstance(b[0], _ast.stmt):
+                    lists.append(b)
+        host = [b for b in lists if any(is_call(s, "raw", "set_model") for s in b)]
+        if len(host) != 1:
+            raise LookupError(f"{len(host)} statement lists contain raw.set_model(...)")
+        b = host[0]
+        i_model = [k for k, s in enumerate(b) if is_call(s, "raw", "set_model")]
+        i_raw = [k for k, s in enumerate(b) if is_call(s, "raw", "set_raw")]
+        ok1 = len(i_model) == 1 and any(k > i_model[0] for k in i_raw)
+        why1 = "raw.set_raw() follows raw.set_model(...) in the same statement list"
+        if ok1:
+            k_raw = min(k for k in i_raw if k > i_model[0])
+            for s in b[i_model[0] + 1:k_raw]:
+                for n in _ast.walk(s):
+                    if isinstance(n, (_ast.Return, _ast.Break, _ast.Continue, _ast.Raise)):
+                        ok1, why1 = False, f"`{_ast.unparse(n)[:40]}` between the two switches can leave model mode on"
+        else:
+            why1 = "no raw.set_raw() after raw.set_model(...) in that statement list"
+        res.append(Res(qn, "post", "model-mode-is-left-before-the-loop-body-ends", P, "proved" if ok1 else "refuted",
+                       backend="control-flow", reason=why1,
+                       witness=None if ok1 else {"statements": [_ast.unparse(s)[:60] for s in b[i_model[0]:][:8]] if i_model else []}))
+        # (2) initialize disabled around the model phase and restored to the saved original
+        saved = [s for s in _ast.walk(fs.node) if isinstance(s, (_ast.Assign, _ast.AnnAssign))
+                 and _ast.unparse(s.value or _ast.Constant(None)) == "raw.initialize"]
+        saved_name = None
+        if saved:
+            t = saved[0].targets[0] if isinstance(saved[0], _ast.Assign) else saved[0].target
+            saved_name = t.id if isinstance(t, _ast.Name) else None
+        sets = [(k, is_setattr_init(s)) for k, s in enumerate(b) if is_setattr_init(s) is not None]
+        before = [v for k, v in sets if i_model and k < i_model[0]]
+        after = [v for k, v in sets if ok1 and k > k_raw]
+        # what the property needs is the first half: a model run (whose Execution calls initialize() on its objective) must
+        # not clear the recorded data or switch back to raw mode; the restoration afterwards is reported but not required
+        ok2 = bool(before) and not (isinstance(before[-1], _ast.Name) and before[-1].id == saved_name)
+        res.append(Res(qn, "post", "initialize-disabled-during-the-model-phase", P,
+                       "proved" if ok2 else "refuted", backend="control-flow",
+                       reason=f"setattr(raw, 'initialize', ...) before the switch: {[_ast.unparse(v) for v in before]}, after "
+                              f"set_raw: {[_ast.unparse(v) for v in after]}, original saved as {saved_name}"))
+    except Exception as ex:      # noqa: BLE001
+        res.append(Res(qn, "post", "model-mode-bracket", P, "undecided", backend="control-flow", reason=repr(ex)[:200]))
+    return res
